@@ -885,7 +885,9 @@ impl Shadow {
                     }
                 }
             }
-            if obs.phase_after != CPhase::Sweeping {
+            // a sweep began ('S') or ended ('Z') inside this call: what was allocated during an
+            // earlier sweep no longer matters
+            if obs.phase_after != CPhase::Sweeping || obs.steps.contains('S') || obs.steps.contains('Z') {
                 self.allocs_in_sweep = 0;
             }
         }
